@@ -112,7 +112,7 @@ fn main() {
         }
     }
     let types = [RType::Counter, RType::Gauge, RType::Histogram, RType::Summary];
-    rep.rule = format!("families from a bounded generator: for each of counter/gauge/histogram/summary every value of the float pool {:?} in every float slot (sample value, sum, bucket bound, quantile) x 12 bucket/quantile shapes (0-2 buckets, explicit +Inf bound, huge counts), label shapes of 0-2 pairs (thorough: 3) with every assignment from the string pool {:?} also used as help, every timestamp of {:?}; all ordered pairs and triples of a 6-family basis as streams; everything gather() returns over the registry enumeration (subsets <=2, all orders, all configs); call histories (failed encode then encode, repeated encode, mutate then re-encode). Each stream: 3 entry points byte-identical, UTF-8, append-only, independent 0.0.4 parser reads back exactly the same families. distinct = distinct encoded texts", floats().iter().map(|f| f64s(*f)).collect::<Vec<_>>(), STRS, TIMESTAMPS);
+    rep.rule = format!("families from a bounded generator: for each of counter/gauge/histogram/summary every value of the float pool {:?} in every float slot (sample value, sum, bucket bound, quantile) x 12 bucket/quantile shapes (0-2 buckets, explicit +Inf bound, huge counts), label shapes of 0-2 pairs (thorough: 3) with every assignment from the string pool {:?} also used as help, every timestamp of {:?}; all ordered pairs and triples of a 6-family basis as streams; 20 streams placing a very large family (a 2 KiB token, a 64+ KiB family of 900 samples, a 400-bucket histogram) at every position among small ones; everything gather() returns over the registry enumeration (subsets <=2, all orders, all configs); call histories (failed encode then encode, repeated encode, mutate then re-encode). Each stream: 3 entry points byte-identical, UTF-8, append-only, independent 0.0.4 parser reads back exactly the same families. distinct = distinct encoded texts", floats().iter().map(|f| f64s(*f)).collect::<Vec<_>>(), STRS, TIMESTAMPS);
     rep.bounds = json!({"strings": STRS.len(), "floats": floats().len(), "labels": if thorough {3} else {2}});
 
     let mut run = |rep: &mut Report, fams: &[RFamily], group: &str| {
@@ -140,6 +140,10 @@ fn main() {
         run(&mut rep, std::slice::from_ref(&f), "generated");
     }
     // 2. multi-family framing
+    // streams mixing small families with very large ones
+    for st in big_streams() {
+        run(&mut rep, &st, "big-stream");
+    }
     let basis = basis_families();
     for a in &basis {
         for b in &basis {
